@@ -638,3 +638,41 @@ def c10_dates(k: int, lit: bool) -> bool:
     if is_good:
         return verdict(not r.get("errors") and r["data"] == {f: val} and len(SEEN) == 1)
     return verdict(bool(r.get("errors")) and not SEEN)
+
+
+# numeric TEXT returned by a resolver for Int/Float (the kernels parse it with CPython's float(): text parsing is not encoded
+# in E2, so this direction is a catalogue)
+STRS = ["3", "-7", "3.0", "3.5", "1e3", "1e999", "-1e999", "nan", "NaN", "inf", "-Infinity", "abc", "", " ", "2147483647", "2147483648", "-2147483649", "0x10", "1_000", "٣"]
+
+
+@obligation(tier="quick", timeout=120, shards=[{"t": t} for t in ("Int", "Float")], samples=[{"k": 0}, {"k": 5}],
+            selectors=["k: text returned by the resolver (%d entries)" % len(STRS)], bounds="catalogue of numeric / non-numeric texts",
+            note="text as resolver output for Int/Float: a non-null result is an in-range int / a finite float denoting the text's value, and feeding it back as input is accepted (idempotence); otherwise null + error")
+def c10_output_text(k: int) -> bool:
+    """
+    post: _
+    """
+    t = shard()["t"]
+    k = pick(k, len(STRS))
+    OUT["v"] = STRS[k]
+    ok, r = safe(lambda: env.run(ENG.execute(QO[t])))
+    observe(STRS[k], r)
+    if not ok:
+        return verdict(False)
+    got = r["data"]["out" + t]
+    if got is None:
+        return verdict(bool(r.get("errors")))
+    if r.get("errors"):
+        return verdict(False)
+    if t == "Int":
+        good = isinstance(got, int) and not isinstance(got, bool) and I32_MIN <= got <= I32_MAX
+    else:
+        good = isinstance(got, float) and math.isfinite(got)
+    if not good:
+        return verdict(False)
+    try:
+        same_value = float(STRS[k]) == got
+    except ValueError:
+        same_value = False
+    ok2, r2 = safe(lambda: env.run(ENG.execute(QV[t], variables={"v": got})))
+    return verdict(same_value and ok2 and not r2.get("errors"))
